@@ -15,6 +15,23 @@ except ImportError:  # pragma: no cover
     UnionTypes = (type(typing.Union[int, str]),)
 
 
+# --- verification hooks (guarded by OVLD_VERIF=1; identity otherwise) ---
+import os as _os
+
+_VERIF = _os.environ.get("OVLD_VERIF") == "1"
+_verif_chooser = None
+
+
+def _verif_order(site, xs):
+    """Let a verification harness pick the iteration order of a set.
+
+    With the guard off, or when no chooser is installed, returns xs itself.
+    """
+    if _VERIF and _verif_chooser is not None:
+        return _verif_chooser(site, xs)
+    return xs
+
+
 class Named:
     """A named object.
 
